@@ -145,6 +145,28 @@ Theorem C19_relist_catches_up : forall retries pa v0 tr w,
 Proof. exact relist_catches_up. Qed.
 Print Assumptions C19_relist_catches_up.
 
+(* progress on an open, un-paused stream: "the server sends what it has, in order" is accepted to the end,
+   every line is yielded, nothing of the log is left above the client's position, and every change is covered *)
+Theorem C19_stream_catches_up : forall retries pa v0 tr w rv,
+  wrun retries (winit pa v0) tr = Some w -> ph (cl w) = POpen rv -> stopper (cl w) = false ->
+  exists v tr' w' v', rv = Some v /\
+    wrun retries w tr' = Some w' /\ ph (cl w') = POpen (Some v') /\ log (sv w') = log (sv w) /\
+    (forall ch, In ch (log (sv w')) -> c_rv ch <= v') /\
+    (forall ch, In ch (log (sv w')) -> covered (tr ++ tr') ch).
+Proof. exact stream_catches_up. Qed.
+Print Assumptions C19_stream_catches_up.
+
+(* api.iter_jsonlines: the lines handed on do not depend on how the bytes arrive in chunks, and are exactly
+   the non-empty newline-terminated pieces: no event line is lost, split or merged at a chunk boundary *)
+Theorem C19_lines_chunking_independent : forall chunks, jsonlines chunks = jsonlines [List.concat chunks].
+Proof. exact jsonlines_chunking. Qed.
+Print Assumptions C19_lines_chunking_independent.
+
+Theorem C19_lines_exact : forall ls, (forall l, In l ls -> nonl l /\ l <> []) ->
+  jsonlines [List.concat (map (fun l => l ++ [10]) ls)] = ls.
+Proof. exact jsonlines_of_lines. Qed.
+Print Assumptions C19_lines_exact.
+
 (* an unknown ERROR event is never silently skipped: after it nothing is yielded and nothing requested,
    the only thing the consumer can get is the exception *)
 Theorem C19_unknown_error_raises : forall retries s code s1 tr s',
